@@ -152,7 +152,9 @@ STOP = Sym('<<stop-iteration>>')
 
 class Interp:
     def __init__(self, model=None, scope=None, hooks=None, max_iter=1,
-                 max_states=40000, exc_edges=True, record_conds=False):
+                 max_states=40000, exc_edges=True, record_conds=False, inline=0):
+        self.inline_depth = inline      # how deep helper calls are interpreted (0 = never)
+        self._inline_stack = []
         self.model, self.scope = model, scope
         self.h = hooks or Hooks()
         self.max_iter = max_iter
@@ -240,6 +242,10 @@ class Interp:
 
     def st_Expr(self, n, s):
         outs = []
+        if isinstance(n.value, ast.Call):
+            inl = self.inline(n.value, s)
+            if inl is not None:
+                return {'fall': [(s2, None) for s2, v in inl]}
         for s2, v in self.expr(n.value, s):
             if isinstance(n.value, ast.Call):
                 self._invalidate_call(n.value, s2)
@@ -259,6 +265,14 @@ class Interp:
 
     def st_Assign(self, n, s):
         outs = []
+        if isinstance(n.value, ast.Call):
+            inl = self.inline(n.value, s)
+            if inl is not None:
+                for s2, v in inl:
+                    for t in n.targets:
+                        self.assign(t, v, s2, n)
+                    outs.append((s2, None))
+                return {'fall': outs}
         for s2, v in self.expr(n.value, s):
             for t in n.targets:
                 self.assign(t, v, s2, n)
@@ -367,8 +381,11 @@ class Interp:
             self.emit(s, ('return', None, n.lineno))
             return {'return': [(s, None)]}
         outs = []
-        for s2, v in self.expr(n.value, s):
-            self.emit(s2, ('return', v if (is_concrete(v) or isinstance(v, (Inst, Sym))) else _text(n.value), n.lineno))
+        results = None
+        if isinstance(n.value, ast.Call):
+            results = self.inline(n.value, s)
+        for s2, v in (results if results is not None else self.expr(n.value, s)):
+            self.emit(s2, ('return', v if (is_concrete(v) or _known(v)) else _text(n.value), n.lineno))
             outs.append((s2, v))
         return {'return': outs}
 
@@ -556,6 +573,156 @@ class Interp:
             body_out = final
         return body_out
 
+    # -- helper inlining ---------------------------------------------------------
+    def _callee(self, call, s):
+        """Resolve a call to a function definition that can be interpreted in place:
+        (node, bound-self?, scope) or None."""
+        f = call.func
+        fn = self.scope
+        node = getattr(fn, 'node', None)
+        if isinstance(f, ast.Name):
+            cur = s.env.get(f.id)
+            if isinstance(cur, Sym) and cur.label.startswith('func:') and isinstance(node, (ast.FunctionDef, ast.AsyncFunctionDef)):
+                for x in ast.walk(node):
+                    if isinstance(x, ast.FunctionDef) and x.name == f.id and x is not node:
+                        return x, False, None
+            if f.id in s.env or self.model is None or fn is None:
+                return None
+            r = self.model.resolve_name(fn, f.id)
+            if isinstance(r, M.FunctionInfo) and r.cls is None:
+                return r.node, False, r
+            return None
+        if isinstance(f, ast.Attribute) and isinstance(f.value, ast.Name) and f.value.id in ('self', 'cls') and self.model is not None:
+            cls = getattr(self.h, 'cls', None) or getattr(fn, 'cls', None)
+            if cls is None or _text(f) in s.env:
+                return None
+            m = self.model.find_method(cls, f.attr)
+            if m is None or (m.cls is not None and f.attr in m.cls.properties and m.cls.properties[f.attr].get('get') is m):
+                return None
+            if any(d in ('staticmethod',) for d in m.decorators):
+                return m.node, False, m
+            return m.node, True, m
+        return None
+
+    def inline(self, call, s):
+        """Interpret a call to a helper of the analysed code in place.
+        Returns [(state, value)] or None when the call is not inlined."""
+        if self.inline_depth <= 0 or len(self._inline_stack) >= self.inline_depth:
+            return None
+        fname = _text(call.func)
+        res = self._callee(call, s)
+        if res is None:
+            return None
+        node, bound, info = res
+        if node in self._inline_stack or any(isinstance(x, (ast.Yield, ast.YieldFrom)) for x in M.walk_no_nested(node)):
+            return None
+        if any(isinstance(k.arg, type(None)) for k in call.keywords) or any(isinstance(a, ast.Starred) for a in call.args):
+            return None
+        # a hook may want to answer this call itself
+        args = [self.ev(a, s) for a in call.args]
+        kwargs = {k.arg: self.ev(k.value, s) for k in call.keywords}
+        r = self.h.call(self, call, self.canon(fname, s), args, kwargs, s)
+        if r is not None:
+            self.emit(s, ('call', self.canon(fname, s), tuple(_evarg(a, x) for a, x in zip(args, call.args)), call.lineno))
+            return [(s, r)]
+        params = [a.arg for a in node.args.posonlyargs + node.args.args]
+        if bound and params:
+            params = params[1:]
+        if len(args) > len(params) and node.args.vararg is None:
+            return None
+        local = {}
+        defaults = node.args.defaults
+        dnames = params[len(params) - len(defaults):] if defaults else []
+        for nm, d in zip(dnames, defaults):
+            local[nm] = self.ev(d, s)
+        for nm, d in zip([a.arg for a in node.args.kwonlyargs], node.args.kw_defaults):
+            if d is not None:
+                local[nm] = self.ev(d, s)
+        for nm, v in zip(params, args):
+            local[nm] = v
+        for k, v in kwargs.items():
+            local[k] = v
+        for nm in params:
+            local.setdefault(nm, TOP)
+        # callee state: shares dotted (attribute) facts and the trace; own locals
+        cs = State({k: v for k, v in s.env.items() if '.' in k or '[' in k or k.startswith('__')}, s.trace, dict(s.assumed))
+        cs.flags = s.flags
+        if not bound:
+            # a nested function sees the enclosing locals
+            if info is None:
+                for k, v in s.env.items():
+                    cs.env.setdefault(k, v)
+        cs.env.update(local)
+        self.emit(cs, ('call', self.canon(fname, s), tuple(_evarg(a, x) for a, x in zip(args, call.args)), call.lineno))
+        self.emit(cs, ('enter', self.canon(fname, s), call.lineno))
+        saved_scope, saved_cache = self.scope, getattr(self, '_locals_cache', None)
+        self._inline_stack.append(node)
+        if info is not None:
+            self.scope = info
+        try:
+            outs = self.block(node.body, [cs])
+        finally:
+            self._inline_stack.pop()
+            self.scope = saved_scope
+            self._locals_cache = saved_cache
+        results = []
+        for kind in ('fall', 'return'):
+            for st, v in outs.get(kind, []):
+                ns = State(dict(s.env), st.trace, st.assumed)
+                ns.flags = st.flags
+                # write back attribute facts and bookkeeping keys
+                for k in [k for k in ns.env if '.' in k or '[' in k or k.startswith('__')]:
+                    if k not in st.env:
+                        del ns.env[k]
+                for k, val in st.env.items():
+                    if '.' in k or '[' in k or k.startswith('__'):
+                        ns.env[k] = val
+                if info is None:
+                    for k, val in st.env.items():
+                        if k in s.env and k not in local:
+                            ns.env[k] = val
+                # drop the callee's `return` event of this frame
+                if ns.trace and ns.trace[-1][0] == 'return':
+                    ns.trace = ns.trace[:-1]
+                self.emit(ns, ('leave', self.canon(fname, s), call.lineno))
+                results.append((ns, v if kind == 'return' else None))
+        for st, v in outs.get('raise', []):
+            self._pending_raises = getattr(self, '_pending_raises', []) + [st]
+        return results or None
+
+    def canon(self, fname, s=None):
+        """Canonical name of a callee: a local that is a pure alias (assigned exactly once,
+        from a name/attribute expression) is replaced by what it aliases."""
+        node = getattr(self.scope, 'node', None)
+        if not isinstance(node, (ast.FunctionDef, ast.AsyncFunctionDef)):
+            return fname
+        cache = getattr(self, '_alias_cache', None)
+        if cache is None or cache[0] is node:
+            pass
+        if cache is None or cache[0] is not node:
+            al = {}
+            count = {}
+            for x in ast.walk(node):
+                if isinstance(x, ast.Assign):
+                    for t in x.targets:
+                        for nm in ([t.id] if isinstance(t, ast.Name) else []):
+                            count[nm] = count.get(nm, 0) + 1
+                            if isinstance(x.value, (ast.Name, ast.Attribute)) and len(x.targets) == 1:
+                                al[nm] = _text(x.value)
+                elif isinstance(x, (ast.AugAssign, ast.For, ast.With, ast.NamedExpr)):
+                    for y in ast.walk(x.target if not isinstance(x, ast.With) else ast.Module(body=[], type_ignores=[])):
+                        if isinstance(y, ast.Name):
+                            count[y.id] = count.get(y.id, 0) + 2
+            al = {k: v for k, v in al.items() if count.get(k) == 1}
+            self._alias_cache = cache = (node, al)
+        al = cache[1]
+        parts = fname.split('.')
+        seen = set()
+        while parts[0] in al and parts[0] not in seen:
+            seen.add(parts[0])
+            parts = al[parts[0]].split('.') + parts[1:]
+        return '.'.join(parts)
+
     # -- conditions ----------------------------------------------------------
     def branch(self, test, s):
         """Evaluate a test; returns [(state, bool)] forking on unknowns."""
@@ -582,7 +749,8 @@ class Interp:
             results.extend((st, is_and) for st in pending)
             return results
         outs = []
-        for s2, v in self.expr(test, s):
+        results = self.inline(test, s) if isinstance(test, ast.Call) else None
+        for s2, v in (results if results is not None else self.expr(test, s)):
             t = self.truth(v)
             if t is not None:
                 if self.record_conds:
@@ -822,7 +990,7 @@ class Interp:
 
     def ev_Yield(self, n, s):
         v = self.ev(n.value, s) if n.value is not None else None
-        self.emit(s, ('yield', v if (is_concrete(v) or isinstance(v, (Inst, Sym))) else _text(n.value), n.lineno))
+        self.emit(s, ('yield', v if (is_concrete(v) or _known(v)) else _text(n.value), n.lineno))
         return TOP
 
     def ev_YieldFrom(self, n, s):
@@ -949,7 +1117,7 @@ class Interp:
         return None
 
     def ev_Call(self, n, s):
-        fname = _text(n.func)
+        fname = self.canon(_text(n.func), s)
         # evaluate callee for bound-method detection
         fval = None
         if isinstance(n.func, ast.Attribute):
@@ -967,9 +1135,21 @@ class Interp:
                 kwargs[k.arg] = v
         self.ncalls = getattr(self, 'ncalls', 0) + 1
         r = self.h.call(self, n, fname, args, kwargs, s)
-        self.emit(s, ('call', fname, tuple(a if (is_concrete(a) and not isinstance(a, (list, dict, set))) or isinstance(a, (Inst, Sym, M.ClassInfo)) else _text(x) for a, x in zip(args, n.args)), n.lineno))
+        self.emit(s, ('call', fname, tuple(_evarg(a, x) for a, x in zip(args, n.args)), n.lineno))
         if r is not None:
             return r
+        if self.inline_depth > 0 and len(self._inline_stack) < self.inline_depth:
+            # helper used inside an expression: inline only when it has a single outcome
+            f2 = s.fork()
+            nst = self.nstates
+            try:
+                res = self.inline(n, f2)
+            except AnalysisError:
+                res = None
+            if res is not None and len(res) == 1:
+                st, v = res[0]
+                s.env, s.trace, s.assumed, s.flags = st.env, st.trace, st.assumed, st.flags
+                return v
         if fname.endswith('stringletters') and not args:
             return M.STRINGLETTERS
         if fval is TOP and isinstance(n.func, ast.Name) and len(args) == 1 and self.model is not None and self.scope is not None:
@@ -1045,6 +1225,18 @@ _PURE = {'len': len, 'int': int, 'str': str, 'bool': bool, 'ord': ord, 'chr': ch
          'abs': abs, 'min': min, 'max': max, 'list': list, 'tuple': tuple,
          'float': float, 'range': range, 'sorted': sorted, 'reversed': lambda x: list(reversed(x)),
          'sum': sum, 'set': set, 'dict': dict, 'enumerate': lambda x: list(enumerate(x))}
+
+
+def _known(a):
+    if isinstance(a, (Inst, Sym, M.ClassInfo)):
+        return True
+    if isinstance(a, tuple):
+        return all(_known(x) for x in a)
+    return is_concrete(a) and not isinstance(a, (list, dict, set))
+
+
+def _evarg(a, x):
+    return a if _known(a) else _text(x)
 
 
 def _text(n):
